@@ -135,20 +135,24 @@ class EventLog:
 class PubSubLog:
     __symex_native__ = True
 
-    def __init__(self, raises=False):
+    def __init__(self, raises=False, w=None):
         self.published = []
         self.subscribed = []
-        self.raises = raises
+        self.raises = raises  # bool, or a symbolic flag decided lazily through w
+        self.w = w
+
+    def _raises(self):
+        return self.w.is_true(self.raises) if self.w is not None else bool(self.raises)
 
     def pub(self, topic, payload, qos, retain):
         self.published.append((topic, payload, qos, retain))
-        if self.raises:
+        if self._raises():
             from symex.core import prog
             raise prog(UserCallbackError("publish failed"))
 
     def sub(self, topic, callback, qos):
         self.subscribed.append((topic, callback, qos))
-        if self.raises:
+        if self._raises():
             from symex.core import prog
             raise prog(UserCallbackError("subscribe failed"))
 
@@ -232,7 +236,7 @@ def make_gateway(w, version, flavour="sync", transport="serial", cb_raises=False
             tr.protocol.transport = g.conn
     elif transport == "mqtt":
         cls = gateway_mqtt.MQTTGateway if flavour == "sync" else gateway_mqtt.AsyncMQTTGateway
-        g.pubsub = PubSubLog(pubsub_raises)
+        g.pubsub = PubSubLog(pubsub_raises, w)
         gw = w.new(cls, g.pubsub.pub, g.pubsub.sub, in_prefix=in_prefix, out_prefix=out_prefix,
                    event_callback=cb, protocol_version=version, persistence=persistence,
                    persistence_file=persistence_file)
